@@ -127,6 +127,19 @@ def run_batch(camp: Campaign, seed: int, tier: str, indices: list[int], wall_s: 
 
 
 # --------------------------------------------------------------------------------------
+def one_digest(camp: Campaign, tier: str, seed: int, index: int) -> str:
+    """Digest of everything one run produced (self-test of determinism)."""
+    import hashlib
+
+    rnd = random.Random(derive(seed, camp.prop, tier, index, "scenario"))
+    sc = camp.generate(rnd, tier, index)
+    res = camp.execute(sc)
+    blob = json.dumps({"scenario": sc, "violations": [(v["signature"], v["detail"][:300], v["at"]) for v in res["violations"]],
+                       "stats": res["stats"], "cover": res["cover"], "digest": res["digest"], "foreign": res["foreign"],
+                       "harness_error": bool(res["harness_error"])}, sort_keys=True, default=str)
+    return hashlib.sha256(blob.encode()).hexdigest()
+
+
 def load_findings() -> list:
     path = os.path.join(VERIF_DIR, "known_findings.json")
     if not os.path.exists(path):
@@ -220,7 +233,11 @@ def main_check(camp: Campaign, tier: str, seed: int) -> int:
     by_sig: dict = {}
     n_foreign_runs = 0
     foreign_kinds: dict = {}
+    notes = []
     for r in results:
+        for nt in r.get("notes", []):
+            if len(notes) < 60:
+                notes.append(f"run {r['index']}: {nt}")
         for k, v in r["stats"].items():
             stats[k] = stats.get(k, 0) + v
         cover.update(r["cover"])
@@ -296,6 +313,7 @@ def main_check(camp: Campaign, tier: str, seed: int) -> int:
             "real_components": camp.real_components,
             "stub_components": camp.stub_components,
             "batch_complete": complete,
+            "notes": notes,
             **ev_extra,
         },
         "assumptions": camp.assumptions,
